@@ -1081,8 +1081,10 @@ func (a *Analysis) builtin(f *frame, site ssa.CallInstruction, bi *ssa.Builtin, 
 			a.storeInto(o, "[]", add)
 		}
 		// in-place idiom: append(x[:i], ...) overwrites elements of x's array that x's other holders can see
-		if sl, ok := cc.Args[0].(*ssa.Slice); ok && sl.High != nil && structural {
-			a.recordWrite(f, site, "elements of "+typeName(sl.X.Type())+" (in-place append)", "structural", a.val(f, sl.X))
+		if structural {
+			for _, sl := range reslices(cc.Args[0], 0, map[ssa.Value]bool{}) {
+				a.recordWrite(f, site, "elements of "+typeName(sl.X.Type())+" (in-place append)", "structural", a.val(f, sl.X))
+			}
 		}
 		return []ObjSet{out}
 	case "copy":
@@ -1468,6 +1470,37 @@ func (a *Analysis) PathToNonFresh(s ObjSet) []string {
 				}
 			}
 		}
+	}
+	return nil
+}
+
+// reslices finds the x[:i] expressions (with an upper bound) that v may be,
+// looking through phis: appending to such a value overwrites elements of x's
+// backing array that other holders of x can see.
+func reslices(v ssa.Value, depth int, seen map[ssa.Value]bool) []*ssa.Slice {
+	if depth > 6 || seen[v] {
+		return nil
+	}
+	seen[v] = true
+	switch x := v.(type) {
+	case *ssa.Slice:
+		if x.High != nil {
+			return []*ssa.Slice{x}
+		}
+		return reslices(x.X, depth+1, seen)
+	case *ssa.Phi:
+		var out []*ssa.Slice
+		for _, e := range x.Edges {
+			out = append(out, reslices(e, depth+1, seen)...)
+		}
+		return out
+	case *ssa.Call:
+		// result of a previous append on such a value
+		if bi, ok := x.Call.Value.(*ssa.Builtin); ok && bi.Name() == "append" {
+			return reslices(x.Call.Args[0], depth+1, seen)
+		}
+	case *ssa.ChangeType:
+		return reslices(x.X, depth+1, seen)
 	}
 	return nil
 }
